@@ -79,6 +79,10 @@ struct PoliciesCanContinue {
 	static bool canContinueInvoking(int, const std::string &) { return true; }
 	static bool canContinueInvoking(const Payload &) { return true; }
 };
+struct PoliciesCanContinueValue {
+	// by-value policy: a library that forwarded (moved) the arguments into it would starve the remaining callbacks
+	static bool canContinueInvoking(Payload) { return true; }
+};
 struct PoliciesOrdered {
 	template <typename Item> using QueueList = eventpp::OrderedQueueList<Item>;
 };
@@ -87,6 +91,13 @@ struct PoliciesHeterFilter { using Mixins = eventpp::MixinList<eventpp::MixinHet
 
 template <typename Base> struct MixinNoop : public Base {};
 struct PoliciesTwoMixins { using Mixins = eventpp::MixinList<MixinNoop, eventpp::MixinFilter>; };
+
+// a removal condition that can be called with the trigger's arguments AND with none:
+// the library must call it with the arguments (the property says "with the trigger's arguments if it accepts them")
+struct CondBothWays {
+	bool operator() () const { return false; }
+	bool operator() (int v, const std::string &) const { return v > 0; }
+};
 
 // custom callback storage
 template <typename Proto> struct MyCallback;
